@@ -302,7 +302,7 @@ func build(r *R) error {
 		res = errors.WithIssueLink(k0, errors.IssueLink{IssueURL: in(r, 0), Detail: in(r, 1)})
 		r.S = []string{in(r, 0), in(r, 1)}
 	case "telemetry":
-		res = errors.WithTelemetry(k0, r.In...)
+		res = errors.WithTelemetry(k0, append([]string{}, r.In...)...) // a private copy: the library keeps the variadic slice
 		r.S = append([]string{}, r.In...)
 	case "domain":
 		res = errors.WithDomain(k0, errors.Domain(in(r, 0)))
